@@ -266,3 +266,187 @@ Example c04_example_err :
                               "# HELP u h" ++ String (ascii_of_nat 10) "# TYPE u untyped" ++ String (ascii_of_nat 10) ""))
   /\ encode Ex.show Ex.showz [] [mkMF (Ex.b "x") [] COUNTER []] = EErr EMsg [].
 Proof. vm_compute. split; reflexivity. Qed.
+
+(* ================================================================================================= *)
+(* End to end: Registry::gather -> TextEncoder -> independent reader.                                 *)
+(* [family_valid], the hypothesis of c04_roundtrip, is derived for what gather returns               *)
+(* (Proofs/TextGather.v, on top of C09's gather_names_wf and GatherFacts).                            *)
+(* ================================================================================================= *)
+Require Import PV.Model.Hist PV.Model.Vec PV.Model.Registry PV.Model.World.
+Require Import PV.Proofs.GatherFacts PV.Proofs.C09Facts PV.Proofs.TextGather.
+
+(* the hypotheses that are not consequences of the library's own checks, spelled out *)
+Theorem c04_gather_hyps_meaning l collected :
+  (Forall strings_wf collected <->
+   forall f, In f collected -> wf_str (mf_help f) /\ forall m lp, In m (mf_metric f) -> In lp (m_label m) -> wf_str (lp_value lp))
+  /\ (common_strings_wf l <-> forall kv, In kv (match l with Some x => x | None => [] end) -> wf_str (snd kv))
+  /\ (agree_type collected <->
+      forall f g, In f collected -> In g collected -> mf_metric f <> [] -> mf_metric g <> [] -> mf_name f = mf_name g -> mf_type f = mf_type g).
+Proof. split; [apply Forall_forall|split; apply iff_refl]. Qed.
+
+(* what a library metric hands to gather is a counter, a gauge or a histogram, and its histogram samples
+   carry no label called le (HistogramOpts / HistogramVec::new refuse it) *)
+Theorem c04_lib_family_reserved d mf :
+  lib_family d mf ->
+  (mf_type mf = COUNTER \/ mf_type mf = GAUGE \/ mf_type mf = HISTOGRAM)
+  /\ forall m lp, In m (mf_metric mf) -> In lp (m_label m) ->
+       (mf_type mf = HISTOGRAM -> lp_name lp <> k_le) /\ (mf_type mf = SUMMARY -> lp_name lp <> k_quantile).
+Proof. exact (lib_family_reserved d mf). Qed.
+
+(* For a registry built by new_custom (its common labels being a map) and collected families that come
+   from library metrics admitted by a successful register call (C09's hypotheses, which give the names):
+   if moreover
+     - families of one name declare one type                               (the hypothesis of C14),
+     - help texts, label values and common label values are Rust Strings   (lists of scalar values),
+   then every gathered family is inside the domain of the round trip.  (That no common label of the
+   registry is called le is part of what new_custom checks since the repair `fix: refuse the reserved
+   label name le among the registry's common labels`; before it, it was a fourth hypothesis here.) *)
+Theorem c04_gathered_valid {C} p l collected :
+  (exists r0 : regcore C, reg_new_custom p l = Ok r0) ->
+  map_like match l with Some x => x | None => [] end ->
+  Forall (fun mf => exists d, lib_family d mf /\ @admitted C p l d) collected ->
+  agree_type collected ->
+  Forall strings_wf collected -> common_strings_wf l ->
+  Forall family_valid (gather_families p l collected).
+Proof. exact (@gather_family_valid_lib C p l collected). Qed.
+
+(* gather prunes empty families, names are valid hence non-empty, the library produces no UNTYPED family:
+   TextEncoder cannot return Err on what gather returns (C09's hypotheses suffice) *)
+Theorem c04_gathered_never_errs {C} show showz p l collected buf :
+  (exists r0 : regcore C, reg_new_custom p l = Ok r0) ->
+  map_like match l with Some x => x | None => [] end ->
+  Forall (fun mf => exists d, lib_family d mf /\ @admitted C p l d) collected ->
+  exists out, encode show showz buf (gather_families p l collected) = EOk out.
+Proof. exact (@gathered_encode_ok_lib show showz C p l collected buf). Qed.
+
+(* gather -> encode -> parse = the gathered families; and the line count is their shape *)
+Theorem c04_gathered_roundtrip {C} show showz p l collected :
+  (exists r0 : regcore C, reg_new_custom p l = Ok r0) ->
+  map_like match l with Some x => x | None => [] end ->
+  Forall (fun mf => exists d, lib_family d mf /\ @admitted C p l d) collected ->
+  agree_type collected ->
+  Forall strings_wf collected -> common_strings_wf l ->
+  numbers_ok show showz (gather_families p l collected) = true ->
+  exists out, encode show showz [] (gather_families p l collected) = EOk out
+              /\ parse out = Some (view (gather_families p l collected))
+              /\ count_lf out = shape_lines (gather_families p l collected).
+Proof. exact (@gathered_roundtrip_lib show showz C p l collected). Qed.
+
+(* the same for arbitrary collectors (custom ones included), in terms of the collected families only:
+   gathered names well-formed (the conclusion of C09), types agree per name, strings are Strings, and no
+   histogram (summary) sample ends up with a label le (quantile), own or common *)
+Theorem c04_gathered_roundtrip_gen show showz p l collected out :
+  Forall C09Facts.family_wf (gather_families p l collected) ->
+  agree_type collected ->
+  Forall strings_wf collected -> common_strings_wf l ->
+  Forall reserved_free collected -> common_reserved_free l collected ->
+  numbers_ok show showz (gather_families p l collected) = true ->
+  encode show showz [] (gather_families p l collected) = EOk out ->
+  parse out = Some (view (gather_families p l collected)).
+Proof. exact (gathered_roundtrip_gen show showz p l collected out). Qed.
+
+Check @c04_gathered_roundtrip : forall C show showz p l collected,
+  (exists r0 : regcore C, reg_new_custom p l = Ok r0) ->
+  map_like match l with Some x => x | None => [] end ->
+  Forall (fun mf => exists d, lib_family d mf /\ @admitted C p l d) collected ->
+  agree_type collected ->
+  Forall strings_wf collected -> common_strings_wf l ->
+  numbers_ok show showz (gather_families p l collected) = true ->
+  exists out, encode show showz [] (gather_families p l collected) = EOk out
+              /\ parse out = Some (view (gather_families p l collected))
+              /\ count_lf out = shape_lines (gather_families p l collected).
+Print Assumptions c04_gather_hyps_meaning.
+Print Assumptions c04_lib_family_reserved.
+Print Assumptions c04_gathered_valid.
+Print Assumptions c04_gathered_never_errs.
+Print Assumptions c04_gathered_roundtrip.
+Print Assumptions c04_gathered_roundtrip_gen.
+
+(* World-level form (NOT proved; stated here so that what is missing is visible):
+     forall ops, (no OpCustom in ops) -> forall fams, In (OFams fams) (run world0 ops) -> Forall family_valid fams
+   needs the extra hypotheses of c04_gathered_valid restated on the history (types agree per name; strings
+   are Strings) and one lemma that no file provides yet:
+     world_collect_lib : forall ops ri rc fs w', nth_error (w_reg (run_world world0 ops)) ri = Some rc ->
+       collect_all (run_world world0 ops) (r_collectors rc) = Some (fs, w') ->
+       reg_reach p l rc /\ Forall (fun mf => exists d, lib_family d mf /\ admitted p l d) fs
+   i.e. an invariant of World.step over all constructor / update / register ops tying every slot to the
+   lib_family constructor it was built by (C05Facts.world_ok is the analogous invariant for vectors only).
+   The example below does the instance by computation. *)
+
+(* ---- non-vacuity: a history of library calls (World.v), its gather, the hypotheses, the round trip ---- *)
+Module GEx.
+  (* Registry::new_custom(Some("p"), {z="1"}); Counter c{a="1"} (help h); HistogramVec n_v{b} (help h, buckets [1]);
+     with_label_values(["x"]).observe(1.0); register both; gather *)
+  Definition ops : list op :=
+    [OpRegistry ex_prefix ex_labels; OpCounter NF ex_o; OpHistVec (mkHOpts (mkOpts [110] [] [118] [104] [] []) ex_bs) [[98]];
+     OpWith 2 [[120]]; OpObserve 3 f_one; OpRegister 0 1; OpRegister 0 2; OpGather 0].
+  Definition gathered : list MetricFamily := gather_families ex_prefix ex_labels ex_collected.
+  Definition show := tab_show [(0, Ex.b "0"); (4607182418800017408, Ex.b "1")].
+  Definition showz := tab_showz [].
+  Definition expected : list N := Ex.b
+"# HELP p_c h
+# TYPE p_c counter
+p_c{a=""1"",z=""1""} 0
+# HELP p_n_v h
+# TYPE p_n_v histogram
+p_n_v_bucket{b=""x"",z=""1"",le=""1""} 1
+p_n_v_bucket{b=""x"",z=""1"",le=""+Inf""} 1
+p_n_v_sum{b=""x"",z=""1""} 1
+p_n_v_count{b=""x"",z=""1""} 1
+".
+  (* a registry whose common label is called le, one histogram *)
+  Definition le_ops : list op :=
+    [OpRegistry None (Some [(k_le, [120])]); OpHistogram (mkHOpts (mkOpts [] [] [104] [104] [] []) [f_one]);
+     OpObserve 1 f_one; OpRegister 0 1; OpGather 0].
+End GEx.
+
+(* the history is accepted call by call and its gather is gather_families of the collected families *)
+Example c04_gathered_example_run :
+  run world0 GEx.ops = [ORes (Ok tt); ORes (Ok tt); ORes (Ok tt); ORes (Ok tt); OUnit; ORes (Ok tt); ORes (Ok tt); OFams GEx.gathered].
+Proof. vm_compute. reflexivity. Qed.
+(* every hypothesis of c04_gathered_roundtrip holds of it (the first three are C09's example) *)
+Example c04_gathered_example_hyps :
+  (exists r0 : regcore nat, reg_new_custom ex_prefix ex_labels = Ok r0)
+  /\ map_like match ex_labels with Some x => x | None => [] end
+  /\ Forall (fun mf => exists d, lib_family d mf /\ @admitted nat ex_prefix ex_labels d) ex_collected
+  /\ agree_type ex_collected
+  /\ Forall strings_wf ex_collected /\ common_strings_wf ex_labels
+  /\ numbers_ok GEx.show GEx.showz GEx.gathered = true.
+Proof.
+  destruct gather_names_wf_example as (H1 & H2 & H3 & _).
+  split; [exact H1|]. split; [exact H2|]. split; [exact H3|].
+  split; [apply agree_typeb_ok; vm_compute; reflexivity|].
+  split; [repeat constructor; apply strings_wfb_ok; vm_compute; reflexivity|].
+  split; [intros kv [<-|[]]; repeat constructor|].
+  vm_compute. reflexivity.
+Qed.
+(* the conclusion by the theorem ... *)
+Example c04_gathered_example_by_theorem :
+  exists out, encode GEx.show GEx.showz [] GEx.gathered = EOk out /\ parse out = Some (view GEx.gathered)
+              /\ count_lf out = shape_lines GEx.gathered.
+Proof.
+  destruct c04_gathered_example_hyps as (H1 & H2 & H3 & H4 & H5 & H6 & H8).
+  exact (@c04_gathered_roundtrip nat GEx.show GEx.showz ex_prefix ex_labels ex_collected H1 H2 H3 H4 H5 H6 H8).
+Qed.
+(* ... and by computation, with the text spelled out *)
+Example c04_gathered_example_by_computation :
+  encode GEx.show GEx.showz [] GEx.gathered = EOk GEx.expected
+  /\ (match parse GEx.expected with Some v => vfams_eqb v (view GEx.gathered) | None => false end) = true.
+Proof. vm_compute. split; reflexivity. Qed.
+
+(* The reserved name le among the registry's common labels.  Before the repair `fix: refuse the reserved
+   label name le among the registry's common labels` the history GEx.le_ops
+     Registry::new_custom(None, {le="x"}); Histogram h; observe(1.0); register; gather
+   was accepted call by call, the encoder returned Ok, and the text carried two labels called le on every
+   bucket line (h_bucket{le="x",le="1"} 1 - confirmed on the real crate), which no reader of format 0.0.4
+   can regroup into the histogram: parse out <> Some (view [g]).  It was found by this development as the
+   one hypothesis of c04_gathered_roundtrip the library did not enforce.  After the repair the registry
+   itself is refused, and nothing is registered or gathered: *)
+Example c04_gathered_common_le_refused :
+  (forall C, ~ exists r0 : regcore C, reg_new_custom None (Some [(k_le, [120])]) = Ok r0)
+  /\ run world0 GEx.le_ops = [ORes (Err EMsg); ORes (Ok tt); OUnit; OBad; OBad].
+Proof.
+  split.
+  - intros C [r0 H]. vm_compute in H. discriminate.
+  - vm_compute. reflexivity.
+Qed.
